@@ -254,8 +254,8 @@ def gen_cases(rng, thorough):
     for a_ in sk:
         for b_ in sk:
             cs.append(Multi("smtp", [smtp_part(a_), smtp_part(b_)], "multi:%s,%s" % (a_, b_), databytes=60))
-    for _ in range(120 if thorough else 30):
-        ks = [rng.choice(qk) for _ in range(rng.choice([3, 4]))]
+    for _ in range(500 if thorough else 30):
+        ks = [rng.choice(qk) for _ in range(rng.choice([3, 4, 5] if thorough else [3, 4]))]
         cs.append(Multi("qmtp", [qmtp_part(k) for k in ks], "multi:" + ",".join(ks), databytes=60))
         ks = [rng.choice(sk) for _ in range(rng.choice([3, 4]))]
         cs.append(Multi("smtp", [smtp_part(k) for k in ks], "multi:" + ",".join(ks), databytes=60))
